@@ -11,60 +11,66 @@ From Coq Require Import List NArith ZArith Bool Arith Lia Permutation.
 Import ListNotations.
 From LC.Base Require Import Utf8 Float64 Sort SortProof Float64Proof.
 From LC.V2 Require Import Tok SSet Match ScoringProof MatchND MatchWF.
-From LC.V2 Require Import Planted TokSim TokInv PlantedText.
+From LC.V2 Require Import Planted TokSim TokInv PlantedText FilterProof.
 
 (* THE PROPERTY at the level of the file's text: pre ++ docu ++ post with pre and docu ending at settled line boundaries (newline-terminated lines none of which ends in a pending hyphen): the copy is reported with confidence 1.0, token span exactly the copy, lines = the lines of its first and last word, names of the document - under the isolation hypothesis of the token-level theorem and the diff contract *)
+(* statement as proved in V2/PlantedText.v (written out; checked against the lemma by exact) *)
 Theorem C01_text_level :
   forall (T : tables) (D : word -> N) (H : list N -> N) (q : nat) (pre docu post : list rune),
-  settled T pre -> settled T docu ->
-  let tp := d_toks (tokenize_runes T true pre) in
-  let tk := d_toks (tokenize_runes T true docu) in
-  let df := tokenize_runes T true (pre ++ docu ++ post) in
-  let a := length tp in
-  let n := length tk in
-  let ids := ids_of D (d_toks df) in
-  let lines := lines_of (d_toks df) in
-  let pseudo := map Z.of_N (d_matches df) in
-  (1 <= q)%nat -> (q <= n)%nat -> (Z.of_nat n < 2 ^ 53)%Z ->
-  forall (C : config) (d : cdoc) (docs : list cdoc) (tset : sset),
-  In d docs ->
-  cd_ids d = ids_of D tk ->
-  built_from H q (ids_of D tk) (cd_set d) ->
-  built_from H q ids tset ->
-  fle (cf_thr C) fone = true ->
-  (trunc (fmul (of_Z (Z.of_nat n)) (cf_thr C)) <= Z.of_nat n)%Z ->
-  cf_diff C (cd_key d) (N.of_nat a) (N.of_nat (a + n)) = Some [(DEqual, cd_ids d)] ->
-  key_part (cd_key d) 1 <> None ->
-  forall res0 : results,
-  match_tokens C docs ids lines pseudo tset = Ok res0 ->
-  (forall (cs : list mtch) (c : mtch),
-     r_matches res0 = filter_candidates (sort (less (cf_total_less C)) (map pseudo_match pseudo ++ cs)) ->
-     m_conf c = fone -> m_st c = Z.of_nat a -> m_et c = (Z.of_nat a + Z.of_nat n - 1)%Z ->
-     In c cs ->
-     forall o : mtch, In o (map pseudo_match pseudo ++ cs) ->
-       o = c \/ mcontains c o = false /\ overlaps c o = false /\ mcontains o c = false) ->
-  exists (c : mtch) (t0 t1 : word * N),
-    In c (r_matches res0) /\
-    m_conf c = fone /\
-    m_st c = Z.of_nat a /\
-    m_et c = (Z.of_nat a + Z.of_nat n - 1)%Z /\
-    Some (m_name c) = key_part (cd_key d) 1 /\
-    Some (m_variant c) = key_part (cd_key d) 2 /\
-    Some (m_type c) = key_part (cd_key d) 0 /\
-    nth_error tk 0 = Some t0 /\
-    nth_error tk (n - 1) = Some t1 /\
-    m_sl c = Z.of_N (snd t0 + nl pre) /\
-    m_el c = Z.of_N (snd t1 + nl pre) /\
-    (Z.of_N (nl pre) + 1 <= m_sl c)%Z /\ (m_sl c <= m_el c)%Z /\
-    (m_el c <= Z.of_N (nl pre + nl docu) + 1)%Z.
-Proof. exact C01_text_reported. Qed.
+         PlantedText.settled T pre ->
+         PlantedText.settled T docu ->
+         let tp := d_toks (tokenize_runes T true pre) in
+         let tk := d_toks (tokenize_runes T true docu) in
+         let df := tokenize_runes T true (pre ++ docu ++ post) in
+         let a := length tp in
+         let n := length tk in
+         let ids := ids_of D (d_toks df) in
+         let lines := lines_of (d_toks df) in
+         let pseudo := map Z.of_N (d_matches df) in
+         1 <= q ->
+         q <= n ->
+         (Z.of_nat n < 2 ^ 53)%Z ->
+         forall (C : config) (d : cdoc) (docs : list cdoc) (tset : sset),
+         In d docs ->
+         cd_ids d = ids_of D tk ->
+         built_from H q (ids_of D tk) (cd_set d) ->
+         built_from H q ids tset ->
+         fle (cf_thr C) fone = true ->
+         (trunc (fmul (of_Z (Z.of_nat n)) (cf_thr C)) <= Z.of_nat n)%Z ->
+         cf_diff C (cd_key d) (N.of_nat a) (N.of_nat (a + n)) = Some [(DEqual, cd_ids d)] ->
+         key_part (cd_key d) 1 <> None ->
+         forall res0 : results,
+         match_tokens C docs ids lines pseudo tset = Ok res0 ->
+         (forall (cs : list mtch) (c : mtch),
+          r_matches res0 = filter_candidates (sort (less (cf_total_less C)) (map pseudo_match pseudo ++ cs)) ->
+          m_conf c = fone ->
+          m_st c = Z.of_nat a ->
+          m_et c = (Z.of_nat a + Z.of_nat n - 1)%Z ->
+          In c cs ->
+          forall o : mtch,
+          In o (map pseudo_match pseudo ++ cs) ->
+          o = c \/ mcontains c o = false /\ overlaps c o = false /\ mcontains o c = false) ->
+         exists (c : mtch) (t0 t1 : word * N),
+           In c (r_matches res0) /\
+           m_conf c = fone /\
+           m_st c = Z.of_nat a /\
+           m_et c = (Z.of_nat a + Z.of_nat n - 1)%Z /\
+           Some (m_name c) = key_part (cd_key d) 1 /\
+           Some (m_variant c) = key_part (cd_key d) 2 /\
+           Some (m_type c) = key_part (cd_key d) 0 /\
+           nth_error tk 0 = Some t0 /\
+           nth_error tk (n - 1) = Some t1 /\
+           m_sl c = Z.of_N (snd t0 + nl pre) /\
+           m_el c = Z.of_N (snd t1 + nl pre) /\
+           (Z.of_N (nl pre) + 1 <= m_sl c)%Z /\ (m_sl c <= m_el c <= Z.of_N (nl pre + nl docu) + 1)%Z.
+Proof. exact (@C01_text_reported). Qed.
 Print Assumptions C01_text_level.
 
 (* the tokenizer is compositional at a settled boundary: tokens, pseudo matches of a ++ b are those of a followed by those of b with lines shifted by the newlines of a *)
 (* statement as proved in V2/PlantedText.v (written out; checked against the lemma by exact) *)
 Theorem C01_tokenizer_compositional :
   forall (T : tables) (a b : list rune),
-         settled T a ->
+         PlantedText.settled T a ->
          d_toks (tokenize_runes T true (a ++ b)) =
          d_toks (tokenize_runes T true a) ++
          map (fun '(w, l) => (w, (l + nl a)%N)) (d_toks (tokenize_runes T true b)) /\
@@ -79,7 +85,8 @@ Print Assumptions C01_tokenizer_compositional.
 (* a text made of newline-terminated lines none of which leaves a hyphen pending is settled (so the hypothesis is about how lines end, nothing else) *)
 (* statement as proved in V2/PlantedText.v (written out; checked against the lemma by exact) *)
 Theorem C01_settled_lines :
-  forall (T : tables) (ls : list (list rune)), Forall (good_line T) ls -> settled T (unlines ls).
+  forall (T : tables) (ls : list (list rune)),
+         Forall (good_line T) ls -> PlantedText.settled T (unlines ls).
 Proof. exact (@settled_unlines). Qed.
 Print Assumptions C01_settled_lines.
 
@@ -223,6 +230,37 @@ Theorem C01_reported_when_isolated :
            Some (m_el c) = nthZ lines (Z.of_nat (length A) + Z.of_nat (length K) - 1).
 Proof. exact (@C01_reported). Qed.
 Print Assumptions C01_reported_when_isolated.
+
+(* overlap filter, for every candidate list: a candidate that is rejected at its turn (even after proposing to evict earlier ones) leaves the result exactly as if it had not been there *)
+(* statement as proved in V2/FilterProof.v (written out; checked against the lemma by exact) *)
+Theorem C01_rejected_candidates_have_no_influence :
+  forall (l1 : list mtch) (c : mtch) (l2 : list mtch),
+         fst (retain_inner c (retain_loop l1 []) 0 []) = false ->
+         filter_candidates (l1 ++ c :: l2) = filter_candidates (l1 ++ l2).
+Proof. exact (@filter_rejected_irrelevant). Qed.
+Print Assumptions C01_rejected_candidates_have_no_influence.
+
+(* the retain loop with its index bookkeeping is a fold over the list of retained candidates *)
+(* statement as proved in V2/FilterProof.v (written out; checked against the lemma by exact) *)
+Theorem C01_filter_is_a_fold :
+  forall l : list mtch,
+         filter_candidates l = fold_left (fun (S : list mtch) (c : mtch) => stepR c S) l [].
+Proof. exact (@filter_candidates_fold). Qed.
+Print Assumptions C01_filter_is_a_fold.
+
+(* no two reported matches block or evict each other *)
+(* statement as proved in V2/FilterProof.v (written out; checked against the lemma by exact) *)
+Theorem C01_filter_result_settled :
+  forall l : list mtch, ForallOrdPairs settled (filter_candidates l).
+Proof. exact (@filter_result_pairwise). Qed.
+Print Assumptions C01_filter_result_settled.
+
+(* filtering the result again changes nothing *)
+(* statement as proved in V2/FilterProof.v (written out; checked against the lemma by exact) *)
+Theorem C01_filter_idempotent :
+  forall l : list mtch, filter_candidates (filter_candidates l) = filter_candidates l.
+Proof. exact (@filter_idempotent). Qed.
+Print Assumptions C01_filter_idempotent.
 
 (* the exact condition under which the overlap/containment filter keeps a candidate *)
 (* statement as proved in V2/Planted.v (written out; checked against the lemma by exact) *)
